@@ -47,7 +47,11 @@ func resolveStruct(rv reflect.Value, fieldName string) (any, bool) {
 
 	// Try field name first
 	if f, ok := rt.FieldByName(fieldName); ok {
-		fv := rv.FieldByIndex(f.Index)
+		fv, err := rv.FieldByIndexErr(f.Index)
+		if err != nil {
+			// promoted field of a nil embedded pointer: absent
+			return nil, false
+		}
 		if !fv.CanInterface() {
 			// unexported field: not accessible, report absence instead of panicking
 			return nil, false
